@@ -98,6 +98,12 @@ fn run(op: &str, l: &V, r: &V, n: i32, prec: Option<usize>) -> String {
         "magnitude" => match l { V::D(a) => format!("I:{}", a.magnitude()), _ => "BADARG".into() },
         "eq_zero" => match l { V::D(a) => format!("B:{}", a.eq_zero() as u8), _ => "BADARG".into() },
         "eq_one" => match l { V::D(a) => format!("B:{}", a.eq_one() as u8), _ => "BADARG".into() },
+        "hash_is_ratio_hash" => match l { V::D(a) => {
+            use std::collections::hash_map::DefaultHasher;
+            use std::hash::{Hash, Hasher};
+            let mut h1 = DefaultHasher::new(); a.hash(&mut h1);
+            let mut h2 = DefaultHasher::new(); a.as_integer_ratio().hash(&mut h2);
+            format!("B:{}", (h1.finish() == h2.finish()) as u8) } _ => "BADARG".into() },
         "ratio" => match l { V::D(a) => { let (x, y) = a.as_integer_ratio(); format!("T:{}:{}", x, y) } _ => "BADARG".into() },
         "from_str" => match l { V::S(s) => match Decimal::from_str(s) { Ok(v) => d(v), Err(e) => format!("ERR:{:?}", e) }, _ => "BADARG".into() },
         "to_string" => match l { V::D(a) => format!("S:{}", hex(&a.to_string())), _ => "BADARG".into() },
